@@ -39,7 +39,7 @@ PROPS = {
     "C03": {"props_file": "Props/C03.v", "families": ["hist", "transfer", "policy"], "design_ref": "DESIGN.md §8 C03",
             "level_text": "Theorems c03_*: every state reachable from a constructor with capacity k by any history holds <= k elements and answers Len/Cap/Avail/IsFull with n, k, k-n, n==k; without capacity -1/-1/false; Push keeps the earliest offered values; Insert on a full stack is a no-op. Proved from the refinement theorem plus a capacity invariant of the specification.",
             "technique": "Coq invariant proof over all histories (corollary of the refinement theorem) + differential correspondence check"},
-    "C08": {"props_file": "Props/C08.v", "families": ["indexsweep", "awkward", "hist"], "design_ref": "DESIGN.md §8 C08",
+    "C08": {"props_file": "Props/C08.v", "families": ["indexsweep", "awkward", "hist", "sched"], "design_ref": "DESIGN.md §8 C08",
             "level_text": "Index part proved: every history with arbitrary Go-int indices (MinInt/MaxInt included) runs without Panic in the regenerated raw-slot model and never reads or overwrites the configuration slot; non-addressing indices make Index/Remove/Replace/Swap fail with the state untouched; -k / oversize indices address what the options promise. Value part: panics on awkward Go values live in reflect and cannot be proved over a model of Go; it is decided by the exhaustive awkward-value family (24 methods x 52 values x receiver states + observer battery) and, for the two alias converters, by the theorems of C12.",
             "technique": "Coq proof over the regenerated index/guard fragments (all ints) + exhaustive boundary sweep and awkward-value differential families",
             "assumptions": ["the value part (arbitrary Go values through reflect) is covered by exhaustive enumeration of a 52-value catalogue, not by a theorem"]},
@@ -52,7 +52,7 @@ PROPS = {
             "technique": "Coq-proved static analysis over a regenerated guard IR + model frame theorems + reflection-driven differential check",
             "race": {"mode": "queries", "rounds": [25, 800], "workers": 12},
             "assumptions": ["user closures and foreign String methods are assumed pure", "race-freedom is argued from 'no writes on any query path'; the Go memory model and scheduler are not modelled (partial)"]},
-    "C17": {"props_file": "Props/C17.v", "families": ["zeroreflect"], "design_ref": "DESIGN.md §8 C17",
+    "C17": {"props_file": "Props/C17.v", "families": ["zeroreflect", "awkward"], "design_ref": "DESIGN.md §8 C17",
             "level_text": "Static theorem c17_zero_inert_every_method over the regenerated guard IR: for every exported method in the source now (except Marshal and Condition.Init) no path on a zero/freed receiver dereferences the nil embedded pointer or the missing configuration record, and none stores into the receiver; nil Auxiliary methods do not dereference. Reset keeps the configuration record and empties the content (nil elements included). Dynamic leg: every method found by reflection x argument variants x {zero, freed, Init()-only Condition, nil Auxiliary}: no panic, zero results, IsZero/IsInit unchanged.",
             "technique": "Coq-proved static analysis over a regenerated guard IR + reflection-driven differential check",
             "assumptions": ["panics other than nil dereference of the embedded pointer / configuration record are covered by the dynamic family only"]},
